@@ -13,7 +13,7 @@ Clause(i, name, cond) == IF cond THEN TRUE ELSE PrintT(<<"REJECT", i, name>>)
 \* every harness record carries these three flags
 Sane(i, r) == /\ Clause(i, "panic", ~r.out.panic)
               /\ Clause(i, "timeout", ~r.out.timeout)
-Ran(r) == ~r.out.panic /\ ~r.out.timeout
+Ran(r) == ~r.out.panic /\ ~r.out.timeout /\ ~r.out.skipped
 
 AbsV(x) == IF x < 0 THEN -x ELSE x
 SgnV(x) == IF x < 0 THEN -1 ELSE IF x > 0 THEN 1 ELSE 0
